@@ -29,6 +29,8 @@ MSGS = {
     # My Autonomous System 0 (never a peer's AS: Bad Peer AS), and an optional parameter that is not Capabilities (the
     # deprecated Authentication parameter, type 1: Unsupported Optional Parameters, RFC 4271 6.2)
     'OPEN_as0': (peer_open(asn=0, caps=None), dict(kind='OPEN', ver=4, asn=0, hold=90)),
+    # two faults in one OPEN: another AS and hold time 1 (one NOTIFICATION, for either)
+    'OPEN_badas_h1': (peer_open(asn=65009, hold=1), dict(kind='OPEN', ver=4, asn=65009, hold=1)),
     'OPEN_optauth': (frame(1, struct.pack('!BHHIB', 4, 65002, 90, 0x0a000002, 4) + b'\x01\x02\x00\x00'),
                      dict(kind='OPEN', ver=4, asn=65002, hold=90, unsup_opt=True)),
     # a recognized capability (4-octet AS) whose value has the wrong length: malformed optional parameter
@@ -73,7 +75,7 @@ for _k in range(0, 6):
     MSGS['UPD_atlen_end-%d' % _k] = (frame(2, _b[:2] + struct.pack('!H', len(_b) - 4 + 2 - _k) + _b[4:]), dict(kind='UPD'))
     LENGTH_EDGE += ['UPD_wdlen_end-%d' % _k, 'UPD_atlen_end-%d' % _k]
 ODD_LENGTH = ['OPEN_short', 'UPD_short', 'NOTI_short', 'KA_long', 'RR_short', 'RR_orf']
-ALPHABET_C01 = ['OPEN', 'OPEN_h0', 'OPEN_h1', 'OPEN_h2', 'OPEN_h9', 'OPEN_badver', 'OPEN_badas', 'OPEN_badcap', 'OPEN_as0', 'OPEN_optauth',
+ALPHABET_C01 = ['OPEN', 'OPEN_h0', 'OPEN_h1', 'OPEN_h2', 'OPEN_h9', 'OPEN_badver', 'OPEN_badas', 'OPEN_badcap', 'OPEN_as0', 'OPEN_optauth', 'OPEN_badas_h1',
                 'KA', 'UPD', 'UPD1', 'UPD_unkfam', 'UPD_malformed', 'UPD_wdoverrun', 'NOTI_VER', 'NOTI_CEASE', 'NOTI_HDR', 'NOTI_UPD', 'NOTI_HOLD', 'NOTI_FSM', 'NOTI_RR', 'NOTI_UNK', 'RR', 'BADMARK', 'BADLEN', 'BADLEN0',
                 'BADLEN4097', 'BADTYPE', 'OPEN_short', 'UPD_short', 'NOTI_short', 'KA_long']
 ALPHABET_SMALL = ['OPEN', 'OPEN_h1', 'OPEN_badas', 'KA', 'UPD', 'NOTI_VER', 'NOTI_CEASE', 'BADMARK']
@@ -361,6 +363,37 @@ def fuzz_alphabet_typed(rng, n):
     return names
 
 
+def noti_alphabet(rng, n):
+    """n peer NOTIFICATIONs: every error code with its RFC sub-codes (RFC 4271 4.5, RFC 4486 / 9003 Cease sub-codes 1..10,
+    RFC 7313) and unassigned ones, with data that is empty, binary, UTF-8 text (shutdown communication), Latin-1 text or text
+    cut inside a multi-octet character.  Names start with FZ so that replays carry them."""
+    names = []
+    subs = {1: [1, 2, 3, 0, 9], 2: [1, 2, 3, 4, 6, 7, 8, 0], 3: list(range(0, 12)), 4: [0, 1], 5: [0, 1, 2, 3], 6: list(range(0, 11)), 7: [0, 1, 2], 8: [0], 0: [0], 255: [255]}
+    for k in range(n):
+        code = rng.choice(sorted(subs))
+        sub = rng.choice(subs[code])
+        kind = rng.choice(['empty', 'binary', 'utf8', 'latin1', 'cut', 'long'])
+        if kind == 'empty':
+            data = b''
+        elif kind == 'binary':
+            data = bytes(rng.getrandbits(8) for _ in range(rng.choice([1, 2, 6, 21])))
+        elif kind == 'utf8':
+            t = 'maintenance \u2013 zur\u00fcck um 12:00'.encode('utf-8')
+            data = bytes([len(t)]) + t
+        elif kind == 'latin1':
+            t = 'zur\u00fcck um 12:00'.encode('latin-1')
+            data = bytes([len(t)]) + t
+        elif kind == 'cut':
+            t = 'wartung \u20ac'.encode('utf-8')[:-1]
+            data = bytes([len(t)]) + t
+        else:
+            data = bytes(rng.getrandbits(8) for _ in range(rng.choice([128, 255, 1000])))
+        name = 'FZN%d' % k
+        MSGS[name] = (frame(3, bytes([code, sub]) + data), dict(kind='NOTI', code=code, sub=sub))
+        names.append(name)
+    return names
+
+
 def open_alphabet(rng, n, remote_as=65002):
     """n peer OPENs from a grammar (RFC 4271 4.2, RFC 5492): random capability sets in random packaging, boundary hold times,
     2- and 4-octet AS forms, and at most ONE problem each - version, AS 0, another AS (in the field or in the 4-octet
@@ -369,6 +402,8 @@ def open_alphabet(rng, n, remote_as=65002):
     names = []
     for k in range(n):
         problem = rng.choice([None, None, None, 'ver', 'as0', 'asbad', 'hold', 'optparam', 'badcap'])
+        # now and then a second fault in the same OPEN (any one of them may be the one that is answered)
+        second = rng.choice(['hold', 'asbad', 'optparam']) if problem in ('asbad', 'hold', 'optparam', 'as0') and rng.random() < 0.25 else None
         ver, hold = 4, rng.choice([0, 3, 4, 9, 30, 90, 180, 240, 65535])
         as4 = rng.random() < 0.7 or remote_as > 65535
         asn = remote_as
@@ -391,11 +426,11 @@ def open_alphabet(rng, n, remote_as=65002):
             caps.append((rng.choice([3, 4, 6, 67, 73, 129, 200, 255]), bytes(rng.getrandbits(8) for _ in range(rng.choice([0, 1, 4, 9])))))
         if problem == 'ver':
             ver = rng.choice([0, 1, 2, 3, 5, 255])
-        elif problem == 'hold':
+        if 'hold' in (problem, second):
             hold = rng.choice([1, 2])
-        elif problem == 'asbad':
+        if 'asbad' in (problem, second) and problem != 'as0':
             asn = rng.choice([65009, 1, 64512] + ([4200000009, 65536] if as4 else []))
-        elif problem == 'as0':
+        if problem == 'as0':
             as4, asn = False, 0
         if as4:
             caps.append((65, struct.pack('!I', asn)))
@@ -414,7 +449,7 @@ def open_alphabet(rng, n, remote_as=65002):
                 body = b''.join(struct.pack('!BB', c, len(v)) + v for c, v in g)
                 if len(body) < 250:
                     params.append(struct.pack('!BB', 2, len(body)) + body)
-        if problem == 'optparam':
+        if 'optparam' in (problem, second):
             junk = bytes(rng.getrandbits(8) for _ in range(rng.choice([0, 1, 6])))
             params.insert(rng.randint(0, len(params)), struct.pack('!BB', rng.choice([1, 3, 4, 254]), len(junk)) + junk)
         opt = b''.join(params)
@@ -425,7 +460,7 @@ def open_alphabet(rng, n, remote_as=65002):
         meta = dict(kind='OPEN', ver=ver, asn=asn, hold=hold)
         if problem == 'badcap':
             meta['malformed'] = True
-        if problem == 'optparam':
+        if 'optparam' in (problem, second):
             meta['unsup_opt'] = True
         name = 'FZO%d' % k
         MSGS[name] = (fr, meta)
